@@ -400,8 +400,47 @@ def value_case_variants(rnd):
     return out
 
 
+_DICTIONARY = {}
+
+
+def source_dictionary():
+    """identifiers and the words of string literals of the library's own source (the working tree under test): what a program
+    compares its input with is written in its text - internal table keys, attribute names, helper names"""
+    import re, os, glob
+    from common import REPO
+    if REPO not in _DICTIONARY:
+        toks = set()
+        for f in sorted(glob.glob(os.path.join(REPO, "cvss", "*.py"))):
+            try:
+                text = open(f, encoding="utf-8", errors="replace").read()
+            except OSError:
+                continue
+            toks.update(t for t in re.findall(r"[A-Za-z_][A-Za-z0-9_]*", text) if len(t) <= 14)
+        _DICTIONARY[REPO] = sorted(toks)
+    return _DICTIONARY[REPO]
+
+
+def dictionary_fields(rnd, cap=1200):
+    """every word of the source dictionary as a metric name (with a plausible value) appended to / inserted into a valid vector,
+    rotating over the versions; words that are legal metric names of that version are left out (they would be duplicates or valid)"""
+    out = []
+    words = source_dictionary()
+    if len(words) > cap:
+        words = rnd.sample(words, cap)
+    for k, w in enumerate(words):
+        ver = "234"[k % 3]
+        if w in ORDER[ver]:
+            continue
+        for v in ("X" if ver != "2" else "ND", "N", "L", "H", rnd.choice(["P", "U", "C", "A", "M", "S", "R"])):
+            s = random_vector(rnd, ver, p_opt=rnd.choice([0.0, 0.2]))[3]
+            fields = s.split("/")
+            pos = rnd.randrange(1 if ver != "2" else 0, len(fields) + 1)
+            out.append("/".join(fields[:pos] + ["%s:%s" % (w, v)] + fields[pos:]))
+    return out
+
+
 def near_misses(rnd, n, depth2=0.2):
-    out = prefix_variants(rnd) + value_case_variants(rnd) + fault_pairs(rnd, 1 if n < 50000 else 6) + fragment_sweep(rnd)
+    out = prefix_variants(rnd) + value_case_variants(rnd) + fault_pairs(rnd, 1 if n < 50000 else 6) + fragment_sweep(rnd) + dictionary_fields(rnd)
     for _ in range(n):
         ver = rnd.choice("234")
         _, minor, g, s = random_vector(rnd, ver)
